@@ -16,7 +16,7 @@ TEXT = {
             'Held on the sampled (start, increment, count) requests, including increments that select summary levels 1-3 (quick) / 1-5 (thorough) and starts/ends unaligned to entries, blocks and summary chunks; tolerances are derived from the storage precision, not fitted.'),
     'C03': ('fault_enumeration', 'every crash image of the recorded backend write sequence, reopened by the real reader in its own process',
             'Every cut between two backend writes and byte prefixes inside writes of the generated programs is materialised and opened; what the reader exposes is compared with the submission model (prefix semantics) and clause 2 is checked where it applies. Complete over the crash points of the programs run, exploration over programs.'),
-    'C04': ('fault_enumeration', 'exhaustive single-bit flips and sampled multi-bit / burst / overwrite faults on closed files; oracle = truth or correct prefix or error',
+    'C04': ('fault_enumeration', 'exhaustive single-bit flips and sampled multi-bit / burst / overwrite / interrupted-link-update faults on closed files; oracle = truth or correct prefix or error',
             'Every single-bit flip of small files is enumerated (exhaustive for those files); 2-3 bit combinations, bursts <= 32 bits and overwritten ranges are sampled per protected region. Any reader result that is neither an error, the truth, nor a correct prefix is a violation.'),
     'C05': ('exploration', 'independent decoder written from format.h (no jls code) over every produced file + content comparison with the submission model',
             'Every file produced by every generator mode, by jls_copy and by post-crash repair is walked forward/backward and list by list by a decoder that shares no code with the library; content is compared with what was submitted.'),
@@ -29,7 +29,7 @@ TEXT = {
     'C09': ('exploration', 'generated gap/overlap write sequences vs. fill / keep-first model; stored summaries recomputed by the independent decoder',
             'Held on the generated sequences of 1-6 gap/overlap events over all types, including gaps larger than the internal fill buffer and sub-byte-unaligned overlaps.'),
     'C10': ('exploration', 'API op-sequence interpreter under AddressSanitizer + UBSan subset + LeakSanitizer, exactly sized caller buffers, one process per sequence',
-            'Generated call sequences over the whole public API with boundary ids, windows, lengths, enum values and definition parameters; any signal, sanitizer report, CPU-limit hit or leak is a violation keyed by report kind and first library frame.'),
+            'Generated call sequences over the whole public API with boundary ids, windows, lengths, enum values and definition parameters; any signal, sanitizer report, CPU-limit hit or leak is a violation keyed by report kind and first library frame; on CRC-consistent hostile files (what the raw API can write) sanitizer reports and signals decide, CPU-limit hits are inconclusive.'),
     'C11': ('exploration', 'generated annotation programs vs. submission model: full iteration, seeks at every timestamp class, early stop',
             'Held on the generated files: decimation factors, counts up to three index levels, equal-timestamp runs placed across index-chunk boundaries, global and FSR signals with offsets.'),
     'C12': ('exploration', 'generated UTC anchor sets vs. exact rational interpolation (int128)',
@@ -37,7 +37,7 @@ TEXT = {
     'C13': ('exploration', 'generated definition/user-data programs incl. calls that must be rejected; I/O log proves rejected calls write nothing; byte-identical file without them',
             'Held on the generated id sets, string classes (absent .. 600 KiB) and user-data sizes (0 .. 3 MiB).'),
     'C14': ('exploration', 'online write-once monitor inside the interposed write(): every backend write judged against the previous bytes',
-            'Every backend write of every writer run of the generator modes is judged: appends, header link patches (bytes 16..27 unchanged, CRC valid), head-table entries 0 -> existing chunk, file header only as the last write.'),
+            'Every backend write of every writer run of the generator modes is judged: appends, header link patches (bytes 16..27 unchanged, CRC valid), head-table entries 0 -> existing chunk, file header only as the last write. The far mode repeats this with file positions beyond 2^32 and reads the result back through the library reader.'),
     'C15': ('exploration', 'same stream written with omission on/off: SUMMARY payloads bit-identical (independent decoder), lengths, reads',
             'Held on the generated streams (constant/non-constant block patterns, omission toggled at random calls).'),
     'C16': ('exploration', 'complete small grid + boundary-biased sampling of the normaliser in CPU-limited children; define-read-define round trip through files',
